@@ -362,6 +362,12 @@ class ApplyLinks(Processor):
                     new_interaction = interaction
 
                 interaction_key = (*new_interaction.atoms, new_interaction.meta.get("version", 1))
+                # interactions that are already part of the molecule (i.e. come from
+                # the blocks) never replace each other; this keeps e.g. all terms of
+                # a multi-term dihedral or an ifdef/ifndef pair on the same atoms
+                if mapping is None:
+                    while interaction_key in self.applied_links[inter_type]:
+                        interaction_key = (*interaction_key, None)
                 self.applied_links[inter_type][interaction_key] = (new_interaction, citations)
 
     def apply_link_between_residues(self, meta_molecule, link, link_to_resid):
